@@ -23,6 +23,191 @@ fn u64s(v: &Value) -> Vec<u64> {
     v.as_array().map(|a| a.iter().filter_map(|x| x.as_u64()).collect()).unwrap_or_default()
 }
 
+/// what a scripted TLS server saw on one connection, in order: (command, stream id, payload)
+type ConnFrames = Vec<(u8, u32, Vec<u8>)>;
+
+/// Client mode: 2-6 requests through the real `Client` (fresh and pooled sessions, concurrent and
+/// sequential, some failing locally after their stream was opened) against a scripted TLS server that
+/// records the frame sequence of every connection and answers each complete destination with an empty
+/// SYNACK. Judged per connection: Settings first, SYN before the data of its stream, and for every
+/// request the destination is the first data of its stream, arrives exactly once and is followed by the
+/// application's first chunk — nothing overtaken, nothing dropped.
+async fn run_client_mode(plan: &Value) -> Outcome {
+    use crate::refcodec as rc;
+    use crate::tierb::*;
+    use anytls_simnet::net::TcpListener;
+    use anytls_simnet::world::now_us;
+    use std::sync::Mutex;
+    use tokio::io::AsyncWriteExt;
+    use tokio::time::sleep;
+    let mut out = Outcome::ok();
+    reset_process_state().await;
+    let conns: Arc<Mutex<Vec<ConnFrames>>> = Arc::new(Mutex::new(Vec::new()));
+    let answer_delay = plan["answer_delay_ms"].as_u64().unwrap_or(0);
+    {
+        let conns = conns.clone();
+        anytls_simnet::spawn(async move {
+            let Ok(listener) = TcpListener::bind(SERVER_ADDR).await else { return };
+            let acceptor = crate::fixtures::acceptor("a");
+            loop {
+                let Ok((tcp, _)) = listener.accept().await else { return };
+                let (acceptor, conns) = (acceptor.clone(), conns.clone());
+                anytls_simnet::spawn(async move {
+                    let Ok(tls) = acceptor.accept(tcp).await else { return };
+                    let (mut rd, wr) = tokio::io::split(tls);
+                    let wr = Arc::new(tokio::sync::Mutex::new(wr));
+                    let mut pre = [0u8; 34];
+                    if rd.read_exact(&mut pre).await.is_err() {
+                        return;
+                    }
+                    let l = u16::from_be_bytes([pre[32], pre[33]]) as usize;
+                    let mut pad = vec![0u8; l];
+                    if rd.read_exact(&mut pad).await.is_err() {
+                        return;
+                    }
+                    let me = {
+                        let mut g = conns.lock().unwrap();
+                        g.push(Vec::new());
+                        g.len() - 1
+                    };
+                    let mut acc: Vec<u8> = Vec::new();
+                    let mut dest: BTreeMap<u32, Vec<u8>> = BTreeMap::new();
+                    let mut answered: BTreeSet<u32> = BTreeSet::new();
+                    let mut b = vec![0u8; 4096];
+                    loop {
+                        let n = match rd.read(&mut b).await {
+                            Ok(0) | Err(_) => return,
+                            Ok(n) => n,
+                        };
+                        acc.extend_from_slice(&b[..n]);
+                        let (frames, residue) = rc::parse_all(&acc);
+                        let keep = acc.len() - residue;
+                        acc.drain(..keep);
+                        for f in frames {
+                            if rc::is_waste(f.cmd) {
+                                continue;
+                            }
+                            conns.lock().unwrap()[me].push((f.cmd, f.sid, f.data.clone()));
+                            if f.cmd == rc::HEART_REQ {
+                                let mut g = wr.lock().await;
+                                let _ = g.write_all(&rc::encode(rc::HEART_RESP, 0, b"")).await;
+                                let _ = g.flush().await;
+                            }
+                            if f.cmd != rc::PSH || answered.contains(&f.sid) {
+                                continue;
+                            }
+                            let d = dest.entry(f.sid).or_default();
+                            d.extend_from_slice(&f.data);
+                            if d.len() >= 7 {
+                                answered.insert(f.sid);
+                                let (wr2, sid) = (wr.clone(), f.sid);
+                                anytls_simnet::spawn(async move {
+                                    sleep(Duration::from_millis(answer_delay)).await;
+                                    let mut g = wr2.lock().await;
+                                    let _ = g.write_all(&rc::encode(rc::SYNACK, sid, b"")).await;
+                                    let _ = g.flush().await;
+                                });
+                            }
+                        }
+                    }
+                });
+            }
+        });
+    }
+    let client = make_client(factory(DEFAULT_SCHEME), quiet_pool(), PASSWORD);
+    sleep(Duration::from_millis(1)).await;
+    let reqs = plan["reqs"].as_array().cloned().unwrap_or_default();
+    // (ok, error text, completion time)
+    let res: Arc<Mutex<Vec<Option<(bool, String, u64)>>>> = Arc::new(Mutex::new(vec![None; reqs.len()]));
+    let dest_of = |i: usize| -> Vec<u8> { vec![1, 10, 77, 2, i as u8, 0x20, i as u8] };
+    for (i, r) in reqs.iter().enumerate() {
+        let (c, res2, r2) = (client.clone(), res.clone(), r.clone());
+        anytls_simnet::spawn(async move {
+            sleep(Duration::from_millis(r2["start_ms"].as_u64().unwrap_or(0))).await;
+            let host = if r2["overlong"].as_bool().unwrap_or(false) { "n".repeat(300) } else { format!("10.77.2.{}", i) };
+            match timeout(Duration::from_secs(40), c.create_proxy_stream((host, 0x2000 + i as u16))).await {
+                Ok(Ok((st, se))) => {
+                    let len = r2["data_len"].as_u64().unwrap_or(0) as usize;
+                    let mut ok = true;
+                    if len > 0 {
+                        ok = se.write_data_frame(st.id(), Bytes::from(content(0x1100 + i as u64, len))).await.is_ok();
+                    }
+                    res2.lock().unwrap()[i] = Some((ok, if ok { String::new() } else { "first application write failed".into() }, now_us()));
+                    let _keep = (st, se);
+                    std::future::pending::<()>().await;
+                }
+                Ok(Err(e)) => res2.lock().unwrap()[i] = Some((false, e.to_string(), now_us())),
+                Err(_) => res2.lock().unwrap()[i] = Some((false, "no completion within 40 s".into(), now_us())),
+            }
+        });
+    }
+    sleep(Duration::from_secs(50)).await;
+    let conns = conns.lock().unwrap().clone();
+    let res = res.lock().unwrap().clone();
+    // per connection: Settings first, SYN before the data of its stream, SYN once
+    for (ci, frames) in conns.iter().enumerate() {
+        if let Some((cmd, _, _)) = frames.first() {
+            if *cmd != rc::SETTINGS {
+                out.viol("settings-first", "client:settings-not-first", format!("connection #{}: the first frame is command {} (Settings expected); order {:?}", ci, cmd, frames.iter().take(8).map(|f| (f.0, f.1)).collect::<Vec<_>>()));
+            }
+        }
+        let mut syn: BTreeSet<u32> = BTreeSet::new();
+        for (cmd, sid, _) in frames {
+            if *cmd == rc::SYN && !syn.insert(*sid) {
+                out.viol("exactly-once", "client:syn-twice", format!("connection #{}: two SYN frames for stream {}", ci, sid));
+            }
+            if *cmd == rc::PSH && !syn.contains(sid) {
+                out.viol("syn-first", "client:psh-before-syn", format!("connection #{}: a data frame of stream {} precedes its SYN; order {:?}", ci, sid, frames.iter().take(10).map(|f| (f.0, f.1)).collect::<Vec<_>>()));
+                break;
+            }
+        }
+    }
+    // per request: destination first, exactly once, then the application's chunk
+    for (i, r) in reqs.iter().enumerate() {
+        let overlong = r["overlong"].as_bool().unwrap_or(false);
+        let Some((ok, text, _)) = res[i].clone() else {
+            out.viol("first-data", "client:request-never-completed", format!("request #{} never completed", i));
+            continue;
+        };
+        if overlong {
+            if ok {
+                out.viol("first-data", "client:unencodable-name-accepted", format!("request #{} for a 300-byte name succeeded", i));
+            }
+            continue;
+        }
+        let want = dest_of(i);
+        let mut found = 0;
+        for frames in conns.iter() {
+            let mut by_sid: BTreeMap<u32, Vec<u8>> = BTreeMap::new();
+            for (cmd, sid, data) in frames {
+                if *cmd == rc::PSH {
+                    by_sid.entry(*sid).or_default().extend_from_slice(data);
+                }
+            }
+            for (_, bytes) in by_sid {
+                if bytes.starts_with(&want) {
+                    found += 1;
+                    let mut full = want.clone();
+                    full.extend_from_slice(&content(0x1100 + i as u64, r["data_len"].as_u64().unwrap_or(0) as usize));
+                    if ok && bytes != full {
+                        out.viol("first-data", "client:stream-bytes-differ", format!("request #{}: its stream carried {} bytes, destination + first chunk are {} bytes", i, bytes.len(), full.len()));
+                    }
+                } else if bytes.windows(want.len()).any(|w| w == &want[..]) {
+                    out.viol("first-data", "client:destination-not-first", format!("request #{}: its destination is not the first data of its stream", i));
+                }
+            }
+        }
+        if found != 1 {
+            out.viol("first-data", format!("client:destination-{}", if found == 0 { "never-reached-the-server" } else { "sent-more-than-once" }), format!("request #{} (result ok={} {:?}): its destination frame was seen {} times by the server; connections {:?}", i, ok, text, found, conns.iter().map(|f| f.iter().map(|x| (x.0, x.1)).take(10).collect::<Vec<_>>()).collect::<Vec<_>>()));
+        } else if !ok {
+            out.viol("first-data", "client:request-failed", format!("request #{} failed although the server answered its destination at once: {:?}", i, text));
+        }
+    }
+    out.nontrivial = true;
+    out.summary = json!({"mode": "client", "requests": reqs.len(), "connections": conns.len()});
+    out
+}
+
 impl Check for C11 {
     fn id(&self) -> &'static str {
         "C11"
@@ -34,8 +219,23 @@ impl Check for C11 {
             12_000
         }
     }
-    fn gen_plan(&self, seed: u64, _idx: u64, _t: bool) -> Value {
+    fn gen_plan(&self, seed: u64, idx: u64, _t: bool) -> Value {
         let mut g = Gen::new(seed, "c11");
+        if idx % 8 == 7 {
+            // the same property where the real callers are: Client::create_proxy_stream on pooled sessions
+            let mut net = crate::tierb::calm_net(&mut g);
+            net["pipe"]["lat"] = json!([0, 300]);
+            net["yield_pct"] = json!(100);
+            net["yield_ppm"] = json!(*g.pick(&[0u64, 150_000, 400_000]));
+            net["budget_ppm"] = json!(*g.pick(&[0u64, 100_000, 400_000]));
+            let nr = g.range(2, 6);
+            let reqs: Vec<Value> = (0..nr)
+                .map(|_| json!({"start_ms": *g.pick(&[0u64, 0, 0, 1, 10, 10, 3_000]), "data_len": *g.pick(&[0u64, 1, 100, 3_000]),
+                    // a request that fails locally after its stream was opened (unencodable name) leaves state behind
+                    "overlong": g.chance(20)}))
+                .collect();
+            return json!({"net": net, "mode": "client", "reqs": reqs, "answer_delay_ms": *g.pick(&[0u64, 0, 5, 200])});
+        }
         let mut net = gen_net(&mut g, false, false);
         net["yield_pct"] = json!(*g.pick(&[60u64, 100, 100]));
         net["yield_ppm"] = json!(*g.pick(&[150_000u64, 400_000, 800_000]));
@@ -57,6 +257,9 @@ impl Check for C11 {
     }
     fn run<'a>(&'a self, plan: &'a Value) -> ScenFut<'a> {
         Box::pin(async move {
+            if plan["mode"] == "client" {
+                return run_client_mode(plan).await;
+            }
             let mut out = Outcome::ok();
             let scheme = plan["scheme"].as_str().unwrap_or("stop=0");
             let f = factory(scheme);
@@ -265,6 +468,11 @@ impl Check for C11 {
         })
     }
     fn shrink(&self, plan: &Value) -> Vec<Value> {
+        if plan["mode"] == "client" {
+            let mut out = shrink_array(plan, "/reqs", 1);
+            out.extend(shrink_net(plan));
+            return out;
+        }
         let mut out = shrink_array(plan, "/tasks", 1);
         let n = plan["tasks"].as_array().map(|a| a.len()).unwrap_or(0);
         for i in 0..n {
@@ -299,10 +507,10 @@ impl Check for C11 {
         out
     }
     fn rule(&self) -> &'static str {
-        "one case = 2-6 concurrent tasks each opening a stream on one fresh (buffering) or established client session, disabling buffering, writing a destination and 0-3 direct + 0-3 queued chunks, plus 0-3 heartbeat writes from another task, under a seeded schedule with the write-path yield points active and a small or large transport capacity; oracle on the reference-decoded recorded wire (+ delivery through a real server session in 60% of the cases); non-trivial = at least two tasks completed their writes; distinct = distinct (plan hash, poll-order fingerprint)"
+        "1 case in 8 goes through the real Client: 2-6 requests (concurrent and sequential, fresh and pooled sessions, 20% failing locally after their stream was opened because the name cannot be encoded) against a scripted TLS server that records the frame sequence of every connection and answers each destination with an empty SYNACK — per connection Settings first and SYN before data, per request the destination is the first data of its stream, arrives exactly once and is followed by the application's first chunk; otherwise one case = 2-6 concurrent tasks each opening a stream on one fresh (buffering) or established client session, disabling buffering, writing a destination and 0-3 direct + 0-3 queued chunks, plus 0-3 heartbeat writes from another task, under a seeded schedule with the write-path yield points active and a small or large transport capacity; oracle on the reference-decoded recorded wire (+ delivery through a real server session in 60% of the cases); non-trivial = at least two tasks completed their writes; distinct = distinct (plan hash, poll-order fingerprint)"
     }
     fn real_components(&self) -> Vec<&'static str> {
-        vec!["Session (client): start_client, open_stream, disable_buffering, write_data_frame, write_control_frame, write_frame, write_with_padding, process_stream_data", "Session (server) when the peer is a server", "PaddingFactory", "FrameCodec"]
+        vec!["Client::create_proxy_stream + session pool over rustls (client mode)", "Session (client): start_client, open_stream, disable_buffering, write_data_frame, write_control_frame, write_frame, write_with_padding, process_stream_data", "Session (server) when the peer is a server", "PaddingFactory", "FrameCodec"]
     }
     fn stub_components(&self) -> Vec<&'static str> {
         vec!["transport: recording pipe with seeded capacity/short writes/latency", "TLS: identity", "Client::create_proxy_stream is re-enacted by the harness task (open, disable buffering, write destination)"]
